@@ -60,6 +60,10 @@ func topFrame() string {
 }
 
 // call runs one Transpile under recover and classifies the outcome.
+// extraConv: a converter of this target is constructed AFTER the one the call uses and before
+// Transpile runs (a caller that builds its converters up front, as tsh does); it is never used.
+var extraConv string
+
 func call(w *simrt.World, fn transpileFn, path, target string, res *simrt.CallResult, wantScript bool) {
 	w.BeginCall()
 	traceStart := len(w.Trace)
@@ -79,7 +83,11 @@ func call(w *simrt.World, fn transpileFn, path, target string, res *simrt.CallRe
 				res.PanicTop = topFrame()
 			}
 		}()
-		script, err = fn(path, newConverter(target))
+		conv := newConverter(target)
+		if extraConv != "" {
+			_ = newConverter(extraConv)
+		}
+		script, err = fn(path, conv)
 	}()
 	res.Ticks = w.CallTicks()
 	res.IO = w.CallIO()
@@ -96,8 +104,18 @@ func call(w *simrt.World, fn transpileFn, path, target string, res *simrt.CallRe
 			res.Kind = "neither"
 		}
 		if err != nil {
-			res.Err = err.Error()
-			res.ErrEmpty = res.Err == ""
+			func() {
+				defer func() {
+					if r := recover(); r != nil {
+						// a non-nil error whose Error() panics (a typed nil pointer): an error without a message
+						res.Kind = "panic"
+						res.PanicMsg = "the returned error value panics in Error(): " + fmt.Sprint(r)
+						res.PanicTop = fmt.Sprintf("%T.Error", err)
+					}
+				}()
+				res.Err = err.Error()
+				res.ErrEmpty = res.Err == ""
+			}()
 		}
 		if script != "" {
 			h := sha256.Sum256([]byte(script))
@@ -158,7 +176,9 @@ func runHistory(h *simrt.History, emit func(*simrt.CallResult)) {
 			}
 			t0 := len(w.Trace)
 			r0, n0 := w.MapRanges, w.MapNonCanonical
+			extraConv = st.ExtraConv
 			call(w, fn, st.Path, st.Target, res, false)
+			extraConv = ""
 			res.Trace = append([]simrt.TraceEv(nil), w.Trace[t0:]...)
 			res.MapRanges, res.MapNonCanon = w.MapRanges-r0, w.MapNonCanonical-n0
 			for _, e := range w.Events {
